@@ -1,7 +1,7 @@
 """C09 - the C extension and the pure-Python fallback are interchangeable."""
 import pickle
 
-from .. import families, findings, gen, harness, hist, walker
+from .. import explore, families, findings, gen, harness, hist, walker
 from ..families import INT_RANGES, Indexable, f32, is_duck_number
 from ..harness import brief, call, eq
 from ..runner import rng_for
@@ -34,7 +34,8 @@ def must_see(tier):
          'both-raised-same': 500, 'shape-and-pickle-compared': 500,
          'absolute:lookup-absent': 200, 'absolute:write-typeerror': 200,
          'view-walks': 100, 'stale-separator-trees': 10,
-         'stored:sweep': 500, 'stored:commit': 100, 'big-containers': 8}
+         'stored:sweep': 500, 'stored:commit': 100, 'big-containers': 8,
+         'explore:pairs': 20000, 'explore:closed': 4}
     for lab in ('int', 'bool', 'float', 'str', 'bytes', 'none', 'tuple',
                 'plain', 'index', 'ordered', 'bytearray', 'memoryview',
                 'fraction', 'decimal'):
@@ -59,6 +60,12 @@ def plan(tier, seed):
                               n=70000 if kind in families.TREE_KINDS
                               else 70000, steps=250 if q else 2500,
                               timeout=1800 if q else 7200))
+    # systematic: C and Python side by side through every operation in every
+    # reachable state of a small universe: same shape (node sizes, keys per
+    # leaf, separators), same contents, same pickle (vmon/explore.py)
+    specs += explore.specs_for(ID, tier, seed, ['OO', 'II', 'LF'],
+                               ['OO', 'II', 'LF', 'fs', 'QO', 'UU', 'OI'],
+                               impls=('c',))
     if not q:
         for kind in families.KINDS:
             specs.append(dict(label='big-OO-%s-asan' % kind, family='OO',
@@ -256,6 +263,8 @@ def run_big(spec, rec):
 
 
 def run_shard(spec, rec):
+    if spec.get('explore'):
+        return explore.run_shard(ID, spec, rec)
     if spec.get('big'):
         run_big(spec, rec)
         return
